@@ -414,9 +414,36 @@ def run(ctx):
                 if st["rv"]["k"] != "use":
                     stores.setdefault(fs[0], []).append((i, {("op", st["rv"]["k"])}))
                 else:
-                    stores.setdefault(fs[0], []).append((i, pr.operand(st["rv"]["op"])))
+                    o_ = set(pr.operand(st["rv"]["op"]))
+                    # a value computed by a private helper that is handed the bound closure: what the helper can return is what is stored
+                    # (`drained.backlog_bound(queue_capacity)` = the bound, or a constant the helper chose instead)
+                    for x in list(o_):
+                        if x[0] != "call":
+                            continue
+                        hc = _cs_at(tb, x[1])
+                        for hb in local_callee_bodies(F, hc):
+                            if hb.crate != BG or not in_bg(F, hb):
+                                continue
+                            hpr = Prov(hb)
+                            cl_params = [ai + 1 for ai, a in enumerate(hc.args) if op_local(a) is not None and ("FnOnce" in tb.local_ty(op_local(a)) or "impl Fn" in tb.local_ty(op_local(a)))]
+                            if not cl_params:
+                                continue
+                            o_.discard(x)
+                            for y in hpr.local(0):
+                                if y[0] == "const":
+                                    o_.add(y)
+                                elif y[0] == "call":
+                                    hcs = _cs_at(hb, y[1])
+                                    src = hpr.operand(hcs.args[0]) if hcs.args else set()
+                                    if (hcs.name in ("call_once", "call_mut", "call")) and any(z[0] == "arg" and z[1] in cl_params for z in src):
+                                        o_.add(("helper-bound", hb.name))
+                                    else:
+                                        o_.add(("op", "helper:" + hb.name))
+                                elif y[0] != "via":
+                                    o_.add(("op", "helper:" + hb.name))
+                    stores.setdefault(fs[0], []).append((i, o_))
         bflds = set(bound_fields(F, wv))
-        is_bound = lambda x: (x[0] == "call" and x[1] in bound_calls) or (x[0] == "arg" and x[1] == 1 and len(x[2]) == 1 and x[2][0] in bflds)
+        is_bound = lambda x: (x[0] == "call" and x[1] in bound_calls) or x[0] == "helper-bound" or (x[0] == "arg" and x[1] == 1 and len(x[2]) == 1 and x[2][0] in bflds)
         counters = [f for f, ss in stores.items() if any(any(is_bound(x) for x in o) for _, o in ss)]
         ctx.check(len(counters) == 1, "R04.4", key + "#counter-slot", loc(tb),
                   "could not identify the entries-before-wake counter (a tracker field storing the result of the bound closure): %s" % counters,
